@@ -21,7 +21,50 @@ from .. import common, gen
 
 TOL = 1e-7
 QS = np.array([[0.1, 0.2, 0.3], [0.5, 0.0, 0.0], [0.0, 0.0, 0.0], [0.25, 0.25, 0.0]])
-QS_GV = np.array([[0.1, 0.2, 0.3], [0.31, 0.17, 0.05]])
+QS_GV = np.array([[0.1, 0.2, 0.3], [0.31, 0.17, 0.05], [0.01, 0.005, 0.0]])
+
+
+MESH = [2, 2, 2]
+BAND_PATH = [[[0.05, 0.0, 0.0], [0.275, 0.0, 0.0], [0.5, 0.0, 0.0]], [[0.5, 0.0, 0.0], [0.5, 0.25, 0.1], [0.5, 0.5, 0.2]]]
+DERIVED = ("mesh", "band", "tp", "dos")
+
+
+def gv_config(ph):
+    """the hidden configuration that determines group velocities"""
+    g = ph.group_velocity
+    if g is None:
+        return None
+    return dict(delta_q=ph._gv_delta_q, q_length=g._q_length, analytic=g._ddm is not None,
+                symmetry=g._symmetry is not None, perturbation=None if g._perturbation is None else tuple(np.ravel(g._perturbation)))
+
+
+def read_derived(ph, kind):
+    """the numbers a stored result object reports (None when the object does not exist)"""
+    if kind == "mesh":
+        return None if ph.mesh is None else np.array(ph.get_mesh_dict()["frequencies"], dtype=float)
+    if kind == "band":
+        return None if ph.band_structure is None else np.concatenate([np.ravel(f) for f in ph.get_band_structure_dict()["frequencies"]])
+    if kind == "tp":
+        if ph.thermal_properties is None:
+            return None
+        d = ph.get_thermal_properties_dict()
+        return np.concatenate([np.ravel(d["free_energy"]), np.ravel(d["entropy"]), np.ravel(d["heat_capacity"])])
+    if ph.total_dos is None:
+        return None
+    d = ph.get_total_dos_dict()
+    return np.concatenate([np.ravel(d["frequency_points"]), np.ravel(d["total_dos"])])
+
+
+def run_derived(ph, kind):
+    if kind == "mesh":
+        ph.run_mesh(MESH)
+    elif kind == "band":
+        ph.run_band_structure(BAND_PATH)
+    elif kind == "tp":
+        ph.run_thermal_properties(t_min=0, t_max=300, t_step=100)
+    else:
+        ph.run_total_dos()
+    return read_derived(ph, kind)
 
 
 # --------------------------------------------------------------------------
@@ -150,6 +193,14 @@ class World:
             for d in ds["first_atoms"]:
                 d["forces"] = np.array(-np.einsum("jab,b->ja", fc[d["number"]], d["displacement"]), dtype="double", order="C")
             self.ds_pool.append(ds)
+        from phonopy.harmonic.force_constants import full_fc_to_compact_fc
+
+        self.fc_cpool = [np.array(full_fc_to_compact_fc(self.ph0.primitive, self.fc_pool[k]), dtype="double", order="C") for k in range(3)]
+        self.gen_pool = []
+        for k in range(3):
+            p = self.new_phonopy()
+            p.generate_displacements(distance=0.01 * (k + 1))
+            self.gen_pool.append(_copy.deepcopy(p.dataset))
         nd = len(self.ds_pool[0]["first_atoms"])
         self.force_pool = [np.array(rs.normal(scale=0.05, size=(nd, self.ns, 3)) + np.array(
             [-np.einsum("jab,b->ja", self.fc_pool[k % len(self.fc_pool)][d["number"]], d["displacement"]) for d in self.ds_pool[0]["first_atoms"]]),
@@ -164,11 +215,14 @@ class World:
         return dict(crystal=self.name, supercell=self.smat, pool_seed=self.seed)
 
     FSF = 1.1
+    GVQ = 1e-4
 
     def new_phonopy(self, fsf=False):
         import warnings
 
-        if fsf:   # the deprecated constructor option
+        if fsf == "gv":   # constructed with group_velocity_delta_q
+            return gen.make_phonopy(self.cell, np.diag(self.smat), pmat="P", group_velocity_delta_q=self.GVQ)
+        if fsf is True:   # the deprecated constructor option
             with warnings.catch_warnings():
                 warnings.simplefilter("ignore")
                 return gen.make_phonopy(self.cell, np.diag(self.smat), pmat="P", frequency_scale_factor=self.FSF)
@@ -184,10 +238,13 @@ class World:
         tag, x = t % 7, t // 7
         ph0 = self.ph0
         if tag == 0:
-            r = self.fc_pool[x]
+            r = self.fc_pool[x] if x < 50 else self.fc_cpool[x - 50]
         elif tag == 1:
             r = self.fc_term(x // 4).copy()
-            F.symmetrize_force_constants(r, level=x % 4)
+            if r.shape[0] == r.shape[1]:
+                F.symmetrize_force_constants(r, level=x % 4)
+            else:
+                F.symmetrize_compact_force_constants(r, ph0.primitive, level=x % 4)
         elif tag == 2:
             r = self.fc_term(x).copy()
             F.set_tensor_symmetry_PJ(r, ph0.supercell.cell.T, ph0.supercell.scaled_positions, ph0.symmetry)
@@ -197,7 +254,7 @@ class World:
         elif tag == 4:
             from phonopy.interface.fc_calculator import get_fc2
 
-            r = get_fc2(ph0.supercell, self.ds_term(x), primitive=ph0.primitive, symmetry=ph0.symmetry)
+            r = get_fc2(ph0.supercell, self.ds_term(x // 2), primitive=ph0.primitive, is_compact_fc=bool(x % 2), symmetry=ph0.symmetry)
         elif tag == 6:
             r = self.fc_term(x) * self.FSF ** 2
         else:
@@ -211,7 +268,7 @@ class World:
             return self._memo[key]
         tag, x = t % 7, t // 7
         if tag == 0:
-            r = self.ds_pool[x]
+            r = self.ds_pool[x] if x < 100 else self.gen_pool[x - 100]
         elif tag == 1:    # ph.forces = force_pool[f]
             r = _copy.deepcopy(self.ds_term(x // 8))
             for d, f in zip(r["first_atoms"], self.force_pool[x % 8]):
@@ -258,8 +315,10 @@ class World:
         return r
 
     # ---- a freshly constructed object
-    def fresh(self, fc, nac, masses, gv, fsf=False):
-        key = (fsf, np.asarray(fc).tobytes(), None if nac is None else (np.asarray(nac["born"]).tobytes(), np.asarray(nac["dielectric"]).tobytes(),
+    def fresh(self, fc, nac, masses, gv, fsf=False, kind=None):
+        """results of a freshly constructed object; kind None: run_qpoints (gv: with group velocities);
+        kind in DERIVED: run_mesh (+ run_thermal_properties / run_total_dos) or run_band_structure"""
+        key = (kind, fsf, np.asarray(fc).tobytes(), None if nac is None else (np.asarray(nac["born"]).tobytes(), np.asarray(nac["dielectric"]).tobytes(),
                float(nac["factor"]), nac.get("method", "gonze")), np.asarray(masses).tobytes(), gv)
         if key in self._fresh:
             return self._fresh[key]
@@ -268,9 +327,13 @@ class World:
         p.force_constants = np.array(fc, dtype="double", order="C")
         if nac is not None:
             p.nac_params = _copy.deepcopy(nac)
-        if gv:
+        if kind is not None:
+            if kind in ("tp", "dos"):
+                p.run_mesh(MESH)
+            r = (run_derived(p, kind), None)
+        elif gv:
             p.run_qpoints(QS_GV, with_group_velocities=True)
-            r = (p.qpoints.frequencies.copy(), p.qpoints.group_velocities.copy())
+            r = (p.qpoints.frequencies.copy(), p.qpoints.group_velocities.copy(), gv_config(p))
         else:
             p.run_qpoints(QS)
             r = (p.qpoints.frequencies.copy(), None)
@@ -291,8 +354,10 @@ def op_text(op):
     if k in ("setnac", "setds"):
         return "%s %s" % (k, "-" if op[1] is None else "$%d" % op[1])
     if k == "mut":
+        if len(op) > 3 and op[3] == "fc":
+            return "mutfc $%d %d" % (op[1], op[2])
         return "mut $%d %d" % (op[1], 7 * op[2])
-    if k in ("sym", "cut", "setmasses", "setforces", "setenergies", "producewith"):
+    if k in ("sym", "cut", "setmasses", "setforces", "setenergies", "producewith", "generate"):
         return "%s %d" % (k, op[1])
     if k == "q":
         return "q %s" % op[1]
@@ -300,7 +365,7 @@ def op_text(op):
 
 
 def history_line(m0, ops, fsf=False):
-    return "%s %s ; " % ("runfsf" if fsf else "run", "-" if m0 is None else str(m0)) + " ; ".join(op_text(o) for o in ops)
+    return "%s %s ; " % ("rungv" if fsf == "gv" else ("runfsf" if fsf is True else "run"), "-" if m0 is None else str(m0)) + " ; ".join(op_text(o) for o in ops)
 
 
 def handles(op):
@@ -344,6 +409,12 @@ def run_impl(w, ops, viol, fsf=False):
     from phonopy.harmonic.dynamical_matrix import DynamicalMatrixGL, DynamicalMatrixWang
 
     ph = w.new_phonopy(fsf)
+
+    def structure():
+        return (ph.unitcell.cell.tobytes(), ph.unitcell.scaled_positions.tobytes(), tuple(ph.unitcell.symbols),
+                np.array(ph.supercell_matrix).tobytes(), np.array(ph.primitive_matrix).tobytes(),
+                ph.supercell.cell.tobytes(), ph.supercell.scaled_positions.tobytes(), ph.primitive.scaled_positions.tobytes())
+    structure0 = structure()
     last_freq = None   # frequencies of the last query, valid while only no-op setters were applied since
     objs = []          # python object created / handed out by each step
     kinds = []         # its kind
@@ -371,10 +442,11 @@ def run_impl(w, ops, viol, fsf=False):
                 api = False
                 kind = op[1]
                 if kind == "fc":
+                    src_fc = w.fc_pool[op[2]] if op[2] < 50 else w.fc_cpool[op[2] - 50]
                     if op[3]:
-                        obj = w.fc_pool[op[2]].copy()
+                        obj = src_fc.copy()
                     else:
-                        obj = w.fc_pool[op[2]].copy()[:]       # a view: owndata False
+                        obj = src_fc.copy()[:]       # a view: owndata False
                         assert not obj.flags.owndata
                     snaps[si] = obj.copy()
                 elif kind == "nac":
@@ -391,6 +463,10 @@ def run_impl(w, ops, viol, fsf=False):
                     ph.force_constants = objs[op[1]]
             elif k == "produce":
                 ph.produce_force_constants()
+            elif k == "producec":
+                ph.produce_force_constants(calculate_full_force_constants=False)
+            elif k == "generate":
+                ph.generate_displacements(distance=0.01 * (op[1] + 1))
             elif k in ("setforces", "producewith"):
                 handed = w.force_pool[op[1]].copy()
                 if k == "setforces":
@@ -453,7 +529,8 @@ def run_impl(w, ops, viol, fsf=False):
                         else:
                             tainted = True
                     if kd == "fc":
-                        tgt[...] = w.fc_pool[op[2]]
+                        # pool entry of the array's own layout (see `mutfc` in lean/Drivers/C15.lean)
+                        tgt[...] = w.fc_pool[op[2]] if tgt.shape[0] == tgt.shape[1] else w.fc_cpool[op[2] % 3]
                     elif kd == "nac":
                         src = w.nac_pool[op[2]]
                         tgt["born"][...] = src["born"]
@@ -491,17 +568,32 @@ def run_impl(w, ops, viol, fsf=False):
                         ph.run_qpoints(QS)
                         out = ("ph", ph.qpoints.frequencies.copy(), None)
                         # ---- a setter given the value the object already has must be a no-op
-                        if last_freq is not None and not close(out[1], last_freq, TOL):
+                        if last_freq is not None and not close(out[1], last_freq, TOL) and tainted:
+                            # the rebuild picked up a caller mutation made through one of the documented doors
+                            viol("Phonopy.run_qpoints", "stale-after-aliased-mutation",
+                                 "after the caller mutated an object the Phonopy object holds by reference, re-setting the masses changes the phonons", si)
+                        elif last_freq is not None and not close(out[1], last_freq, TOL):
                             viol("Phonopy.masses setter", "noop-setter-changes-phonons",
                                  "ph.masses = ph.masses changed the frequencies by %.3g THz%s" % (
-                                     float(np.abs(out[1] - last_freq).max()), " (frequency_scale_factor set: the force constants are scaled again at every rebuild of the dynamical matrix)" if fsf else ""), si)
+                                     float(np.abs(out[1] - last_freq).max()), " (frequency_scale_factor set: the force constants are scaled again at every rebuild of the dynamical matrix)" if fsf is True else ""), si)
                         last_freq = out[1]
                     # ---- the property itself: a freshly constructed object answers alike
                     fr = w.fresh(ph.force_constants, ph.nac_params, ph.masses, what == "gv", fsf)
-                    bad = not close(out[1], fr[0], TOL) or (what == "gv" and not close(out[2], fr[1], 1e-5))
+                    bad = not close(out[1], fr[0], TOL) or (what == "gv" and not close(out[2], fr[1], 1e-6))
+                    if what == "gv" and gv_config(ph) != fr[2] and not tainted and fsf is not True:
+                        viol("Phonopy.run_qpoints(with_group_velocities)", "gv-configuration-differs",
+                             "hidden group-velocity configuration %r differs from that of a fresh object %r" % (gv_config(ph), fr[2]), si)
                     if bad:
                         d = float(np.abs(out[1] - fr[0]).max())
-                        if fsf and not tainted:
+                        if what == "gv" and close(out[1], fr[0], TOL):
+                            dgv = float(np.abs(out[2] - fr[1]).max() / max(1.0, np.abs(fr[1]).max()))
+                            if not tainted and fsf is not True:
+                                viol("Phonopy.run_qpoints(with_group_velocities)", "gv-differs-from-fresh",
+                                     "frequencies agree but group velocities differ from a freshly constructed object by %.3g (relative)" % dgv, si)
+                                bad = False
+                        if not bad:
+                            pass
+                        elif fsf is True and not tainted:
                             viol("Phonopy.run_qpoints", "frequency-scale-factor-compounds",
                                  "constructed with frequency_scale_factor: phonons differ by %.3g THz from a fresh object constructed the same way and "
                                  "given ph.force_constants (the scaled array is stored back and scaled again)" % d, si)
@@ -512,6 +604,24 @@ def run_impl(w, ops, viol, fsf=False):
                             viol("Phonopy.run_qpoints", "stale-state",
                                  "phonons differ from a freshly constructed object with the same parameters by %.3g THz" % d, si)
                     out = out + (bad,)
+                elif what in DERIVED or (what.startswith("get") and what[3:] in DERIVED):
+                    dk = what if what in DERIVED else what[3:]
+                    arr = run_derived(ph, dk) if what in DERIVED else read_derived(ph, dk)
+                    out = ("dv", dk, None if arr is None else arr.copy())
+                    # ---- the property itself: the result object equals that of a fresh object in the current state
+                    if arr is not None and ph.dynamical_matrix is not None:
+                        fr = w.fresh(ph.force_constants, ph.nac_params, ph.masses, False, fsf, kind=dk)[0]
+                        if not close(arr, fr, 1e-6):
+                            if tainted:
+                                viol("Phonopy.run_qpoints", "stale-after-aliased-mutation",
+                                     "after the caller mutated an array the object holds by reference, %s differs from a fresh object" % dk, si)
+                            elif fsf is True:
+                                viol("Phonopy.run_qpoints", "frequency-scale-factor-compounds", "%s differs from a fresh object constructed the same way" % dk, si)
+                            else:
+                                viol("Phonopy result objects", "stale-derived-object",
+                                     "%s: the stored %s object differs from that of a fresh object given the current force constants, NAC "
+                                     "parameters and masses (no setter resets result objects; run_thermal_properties / run_total_dos use the stored mesh)"
+                                     % (("ph.run_%s()" % dk) if what in DERIVED else ("stored %s" % dk), dk), si)
                 elif what == "fc":
                     obj, kind = ph.force_constants, "fc"
                     out = ("ref", obj)
@@ -596,6 +706,11 @@ def run_impl(w, ops, viol, fsf=False):
                     else:
                         viol("Phonopy.%s" % k, "caller-%s-modified" % kd, "a caller object of kind %s was modified by %s" % (kd, k), si)
 
+        # ---- the structure (cells, supercell_matrix, primitive_matrix) is immutable
+        if structure() != structure0:
+            viol("Phonopy.%s" % k, "structure-changed", "cells / supercell_matrix / primitive_matrix changed", si)
+            structure0 = structure()
+
         # ---- observable state
         dm = ph.dynamical_matrix
         dg = dict(fc=ph.force_constants, nac=ph.nac_params, m=ph.masses, ds=ph.dataset)
@@ -620,6 +735,13 @@ def run_impl(w, ops, viol, fsf=False):
             dg["dm"] = dict(cls=cls, fc=dm.force_constants, nac=dmn, gonze=gz, same=dm.force_constants is ph.force_constants)
         gvo = ph.group_velocity
         dg["gv"] = "-" if gvo is None else ("cur" if gvo._dynmat is dm else "stale")
+        dg["derived"] = {dk: read_derived(ph, dk) for dk in DERIVED}
+        from phonopy.phonon.group_velocity import GroupVelocity
+
+        def qtok(x):
+            return "-" if x is None else ("1" if abs(x - World.GVQ) < 1e-12 else ("default" if abs(x - GroupVelocity.Default_q_length) < 1e-15 else repr(x)))
+        dg["dq"] = qtok(ph._gv_delta_q)
+        dg["gvq"] = "-" if gvo is None else ("analytic" if gvo._q_length is None else qtok(gvo._q_length))
         fco = ph.force_constants
         dg["fcref"] = sorted(j for j, o in enumerate(objs) if o is not None and o is fco)
         steps.append(dict(out=out, flag=flag, dg=snapshot(dg)))
@@ -844,6 +966,15 @@ def noop_history(rng, w, cls):
     return ops
 
 
+def derived_expected(w, body, dk, fsf):
+    """numbers of result object `dk` of a fresh object with the parameters of the model snapshot `cls:fc:nac:m`"""
+    cls, fct, nact, mt = body.split(":")
+    nac = None if nact == "-" else dict(w.nac_term(int(nact)))
+    if nac is not None:
+        nac["method"] = "wang" if cls == "wang" else "gonze"
+    return w.fresh(w.fc_term(int(fct)), nac, masses_of(w, mt), False, fsf, kind=dk)[0]
+
+
 def parse_model(line):
     steps = []
     for part in line.split(" | "):
@@ -906,6 +1037,21 @@ def compare(w, m0, ops, impl, model, mism):
             exp = masses_of(w, v)
             if not close(out[1], exp):
                 mism("copy(): masses of the copy differ from model token %s" % v, si)
+        elif head == "snap":
+            body = mout[5:]
+            if out[0] != "dv":
+                mism("model returns a stored result object, implementation returned %s" % out[0], si)
+            elif body == "-":
+                if out[2] is not None:
+                    mism("model: no stored %s object, implementation has one" % out[1], si)
+            else:
+                exp = derived_expected(w, body, out[1], False)
+                if out[2] is None or not close(out[2], exp, 1e-6):
+                    mism("stored %s object differs from the model's snapshot %s" % (out[1], body), si)
+        elif head == "ph" and out[0] == "dv":
+            exp = derived_expected(w, mout[3:], out[1], False)
+            if out[2] is None or not close(out[2], exp, 1e-6):
+                mism("run_%s result differs from the model's prediction %s" % (out[1], mout), si)
         elif head == "ph":
             body = mout[3:]
             parts = body.split("/")
@@ -915,15 +1061,16 @@ def compare(w, m0, ops, impl, model, mism):
             nac = None if nact == "-" else dict(w.nac_term(int(nact)))
             if nac is not None:
                 nac["method"] = "wang" if cls == "wang" else "gonze"
-            fr = w.fresh(w.fc_term(int(fct)), nac, masses, with_gv)
+            gvmode = "gv" if m0 == "gv" else False
+            fr = w.fresh(w.fc_term(int(fct)), nac, masses, with_gv, gvmode)
             if out[0] != "ph" or not close(out[1], fr[0], TOL):
                 mism("phonons differ from the model's prediction %s" % mout, si)
             elif with_gv:
                 cls2, fct2, nact2, mt2 = parts[1].split(":")
                 if (cls2, fct2, nact2, mt2) != (cls, fct, nact, mt):
                     nac2 = None if nact2 == "-" else dict(w.nac_term(int(nact2)))
-                    fr = w.fresh(w.fc_term(int(fct2)), nac2, masses, True)
-                if not close(out[2], fr[1], 1e-5):
+                    fr = w.fresh(w.fc_term(int(fct2)), nac2, masses, True, gvmode)
+                if not close(out[2], fr[1], 1e-6):
                     mism("group velocities differ from the model's prediction %s" % mout, si)
         # ---- the caller-mutation flag
         if mflag != st["flag"]:
@@ -965,6 +1112,19 @@ def compare(w, m0, ops, impl, model, mism):
                 mism("dm.force_constants is ph.force_constants: model %s" % same, si)
         if mdg["gv"] != dg["gv"]:
             mism("group-velocity object: model %s, implementation %s" % (mdg["gv"], dg["gv"]), si)
+        if mdg.get("dq", "-") != dg["dq"]:
+            mism("Phonopy._gv_delta_q is %s, model gvDeltaQ %s" % (dg["dq"], mdg.get("dq")), si)
+        if mdg.get("gvq", "-") != dg["gvq"]:
+            mism("the GroupVelocity object differentiates with q_length=%s, model %s" % (dg["gvq"], mdg.get("gvq")), si)
+        for dk, tok in zip(DERIVED, mdg.get("derived", "-,-,-,-").split(",")):
+            got = dg["derived"][dk]
+            if tok == "-":
+                if got is not None:
+                    mism("implementation keeps a %s object, model has none" % dk, si)
+            elif got is None:
+                mism("model keeps a %s object (%s), implementation has none" % (dk, tok), si)
+            elif not close(got, derived_expected(w, tok, dk, False), 1e-6):
+                mism("the kept %s object was computed from other parameters than the model's snapshot %s" % (dk, tok), si)
         exp_ref = [] if mdg["fcref"] == "-" else sorted(refs_of.get(int(mdg["fcref"]), []))
         if exp_ref != dg["fcref"]:
             mism("identity of the force-constant array: model steps %s, implementation steps %s" % (exp_ref, dg["fcref"]), si)
@@ -997,15 +1157,17 @@ def symbols(cls, n0, full):
         "setnac": lambda p: [("new", "nac", nacidx, 1), ("setnac", p)],
         "setmasses": lambda p: [("setmasses", 1)],
         "setds": lambda p: [("new", "ds", 1, 1), ("setds", p)],
-        "mutfc": lambda p: [("mut", 0, 2)],
+        "mutfc": lambda p: [("mut", 0, 2, "fc")],
     }
     if full:
         syms.update({
             "setfc-view": lambda p: [("new", "fc", 3, 0), ("setfc", p)],
             "setfc-again": lambda p: [("setfc", 0)],
             "setnac-none": lambda p: [("setnac", None)],
+            "setnac-wang": lambda p: [("new", "nac", 5, 1), ("setnac", p)],
+            "setnac-gl": lambda p: [("new", "nac", 4, 1), ("setnac", p)],
             "copy": lambda p: [("copy",)],
-            "mutout": lambda p: [("q", "fc"), ("mut", p, 4)],
+            "mutout": lambda p: [("q", "fc"), ("mut", p, 4, "fc")],
             "qgv": lambda p: [("q", "gv")],
             "mutnac": lambda p: [("q", "nac"), ("mut", p, nacidx)],
             "setforces": lambda p: [("setforces", 1)],
@@ -1013,6 +1175,15 @@ def symbols(cls, n0, full):
             "producewith": lambda p: [("producewith", 2)],
             "mutds": lambda p: [("mut", 2, 1)],
             "qdisps": lambda p: [("q", "disps")],
+            "mesh": lambda p: [("q", "mesh")],
+            "band": lambda p: [("q", "band")],
+            "tp": lambda p: [("q", "tp")],
+            "dos": lambda p: [("q", "dos")],
+            "getmesh": lambda p: [("q", "getmesh")],
+            "gettp": lambda p: [("q", "gettp")],
+            "generate": lambda p: [("generate", 1)],
+            "producec": lambda p: [("producec",)],
+            "setfc-compact": lambda p: [("new", "fc", 51, 1), ("setfc", p)],
         })
     return syms
 
@@ -1022,6 +1193,8 @@ def expand(prefix, word, syms):
     for s in word:
         ops += syms[s](len(ops))
     ops += [("q", "freq"), ("q", "gv")]
+    if any(sy in ("mesh", "band", "tp", "dos", "getmesh", "gettp") for sy in word):
+        ops += [("q", "getmesh"), ("q", "getband"), ("q", "gettp"), ("q", "getdos")]
     return ops
 
 
@@ -1033,7 +1206,8 @@ def random_history(rng, w, length):
         r = rng.random()
         p = len(ops)
         if r < 0.10:
-            k = rng.randrange(len(w.fc_pool))
+            # (where the primitive cell is the supercell the compact layout *is* the full layout: no separate leaves)
+            k = rng.randrange(len(w.fc_pool)) if (rng.random() < 0.85 or w.np_ == w.ns) else 50 + rng.randrange(3)
             ops.append(("new", "fc", k, rng.choice([1, 1, 0])))
             have["fc"].append(p)
             ops.append(("setfc", p))
@@ -1042,8 +1216,10 @@ def random_history(rng, w, length):
         elif r < 0.20:
             if have["ds"] or rng.random() < 0.5:
                 rr = rng.random()
-                if rr < 0.4:
+                if rr < 0.3:
                     ops.append(("produce",))
+                elif rr < 0.4:
+                    ops.append(("producec",) if w.np_ != w.ns else ("produce",))
                 elif rr < 0.6:
                     ops.append(("producewith", rng.randrange(4)))
                 elif rr < 0.85:
@@ -1066,8 +1242,11 @@ def random_history(rng, w, length):
         elif r < 0.60:
             ops.append(("setmasses", rng.randrange(3)))
         elif r < 0.66:
-            if rng.random() < 0.15:
+            rr = rng.random()
+            if rr < 0.15:
                 ops.append(("setds", None))
+            elif rr < 0.35:
+                ops.append(("generate", rng.randrange(3)))
             else:
                 ops.append(("new", "ds", rng.randrange(len(w.ds_pool)), 1))
                 have["ds"].append(p)
@@ -1078,13 +1257,15 @@ def random_history(rng, w, length):
             kd = rng.choice(["fc", "fc", "nac", "ds"])
             if have[kd]:
                 n = {"fc": len(w.fc_pool), "nac": len(w.nac_pool), "ds": len(w.ds_pool)}[kd]
-                ops.append(("mut", rng.choice(have[kd]), rng.randrange(n)))
+                ops.append(("mut", rng.choice(have[kd]), rng.randrange(n)) + (("fc",) if kd == "fc" else ()))
         elif r < 0.82:
             kd = rng.choice(["fc", "nac", "ds"])
             ops.append(("q", kd))
             have[kd].append(p)
-        elif r < 0.85:
+        elif r < 0.84:
             ops.append(("q", rng.choice(["masses", "disps"])))
+        elif r < 0.92:
+            ops.append(("q", rng.choice(["mesh", "mesh", "band", "tp", "dos", "getmesh", "getband", "gettp", "getdos"])))
         else:
             ops.append(("q", rng.choice(["freq", "freq", "gv"])))
     ops.append(("q", "freq"))
@@ -1163,13 +1344,13 @@ def _work(chunk):
         elif ml == "bad-op":
             mis.append((-1, "model rejected the history"))
         else:
-            compare(w, None, ops, impl, parse_model(ml), lambda what, si: mis.append((si, what)))
+            compare(w, fsf, ops, impl, parse_model(ml), lambda what, si: mis.append((si, what)))
         res.append((idx, hits, mis))
     return res
 
 
 def process(run, cases, lines, outl, nproc, fsf_ok=True):
-    jobs = [(i, (c[0].name, c[0].smat, c[0].seed), c[1], outl[i] if (fsf_ok or not c[4]) else None, c[4]) for i, c in enumerate(cases)]
+    jobs = [(i, (c[0].name, c[0].smat, c[0].seed), c[1], outl[i] if (fsf_ok or c[4] is not True) else None, c[4]) for i, c in enumerate(cases)]
     if nproc <= 1:
         return _work(jobs)
     import multiprocessing as mp
@@ -1274,7 +1455,12 @@ def main(run):
                 if all(s in syms for s in word):
                     continue
                 cases.append((w0, expand(pre, word, syms2), "exh2-%s-%d" % (cls, L), word, False))
-    nrand = 1500 if thorough else 90
+        # words of length 3 and 4 over the wider alphabet, by sampling
+        for i in range(3000 if thorough else 60):
+            L = 3 if (i % 2 == 0) else 4
+            word = tuple(rng.choice(names2) for _ in range(L))
+            cases.append((w0, expand(pre, word, syms2), "sampled-%s-%d" % (cls, L), word, False))
+    nrand = 2500 if thorough else 90
     for i in range(nrand):
         w = worlds[i % len(worlds)]
         cases.append((w, random_history(rng, w, rng.randint(4, 30)), "random", None, False))
@@ -1287,6 +1473,16 @@ def main(run):
     for i in range(40 if thorough else 6):
         w = worlds[i % 2]
         cases.append((w, random_history(rng, w, rng.randint(4, 16)), "random-fsf", None, True))
+    # objects constructed with group_velocity_delta_q, and gv queries across class switches
+    for i in range(60 if thorough else 9):
+        w = worlds[i % 2]
+        cls = ("plain", "wang", "gl")[i % 3]
+        pre = prefix_for(cls)
+        sw = [rng.choice(["setnac-none", "setnac-wang", "setnac-gl", "copy", "sym", "setmasses"]) for _ in range(rng.randint(1, 3))]
+        syms_gv = symbols(cls, len(pre), full=True)
+        word = ["qgv"] + sw + ["qgv"]
+        cases.append((w, expand(pre, word, syms_gv), "gv-switch", tuple(word), False))
+        cases.append((w, expand(pre, word, syms_gv), "gv-switch-delta_q", tuple(word), "gv"))
     run.cov["exhaustive_words"] = sum(1 for c in cases if c[2].startswith("exh"))
     run.cov["exhaustive"] = False
 
@@ -1338,7 +1534,7 @@ def main(run):
 
     for (s, c), (w, ops, what, si, fsf) in sorted(found.items()):
         small = shrink(w, ops[: si + 1], s, c, budget=10 if not thorough else 60, fsf=fsf)
-        run.violation(s, c, what, dict(world=w.describe(), frequency_scale_factor=World.FSF if fsf else None, history=[op_text(o) for o in small],
+        run.violation(s, c, what, dict(world=w.describe(), frequency_scale_factor=World.FSF if fsf is True else None, group_velocity_delta_q=World.GVQ if fsf == "gv" else None, history=[op_text(o) for o in small],
                                        masses0=None if w.start_masses is None else "from symbols",
                                        note="ops as in lean/Drivers/C15.lean; value 7k = entry k of the pools of World(crystal, supercell, pool_seed) in harness/props/c15.py"))
 
